@@ -112,6 +112,14 @@ def parse_readelf(txt):
     return files
 
 
+def run_tool(cmd, **kw):
+    """run_limited, but a timeout is infrastructure trouble, never a verdict"""
+    p = vt.run_limited(cmd, **kw)
+    if p.returncode == -999:
+        raise Infra("timeout running " + " ".join(cmd[:4]))
+    return p
+
+
 def cflags(cfgname):
     return dict(default=[], nocommon=["-fno-common"], pic=["-fPIC"])[cfgname]
 
@@ -130,8 +138,8 @@ def compile_units(ctx, tree, compiler, units, tag):
     def cc(cfgname, srcs, cwd):
         if compiler == "gcc":
             fl = ["-fcommon"] if cfgname != "nocommon" else []
-            return vt.run_limited(["gcc", "-std=c11", "-O0", "-w", "-c"] + fl + cflags(cfgname) + srcs, timeout=120, cwd=cwd)
-        return vt.run_limited([tree + "/chibicc", "-c"] + cflags(cfgname) + srcs, timeout=120, cwd=cwd)
+            return run_tool(["gcc", "-std=c11", "-O0", "-w", "-c"] + fl + cflags(cfgname) + srcs, timeout=120, cwd=cwd)
+        return run_tool([tree + "/chibicc", "-c"] + cflags(cfgname) + srcs, timeout=120, cwd=cwd)
 
     def one(job):
         cfgname, us, wd = job
@@ -150,7 +158,7 @@ def compile_units(ctx, tree, compiler, units, tag):
             res[missing[0][0]] = ("fail", "rc=%s %s" % (p.returncode, (p.stderr or "")[-400:]))
         objs = ["u%d.o" % uid for uid, _, _ in us if uid not in res]
         if objs:
-            r = vt.run_limited(["readelf", "-SW", "-sW"] + objs, timeout=120, cwd=wd)
+            r = run_tool(["readelf", "-SW", "-sW"] + objs, timeout=120, cwd=wd)
             if r.returncode != 0:
                 raise Infra("readelf failed: " + r.stderr[-500:])
             tabs = parse_readelf(("File: %s\n" % objs[0] if len(objs) == 1 else "") + r.stdout)
@@ -386,21 +394,21 @@ def link_batch(tree, compiler, cfg, batch, wd):
     if compiler == "gcc" and cfg in ("default", "nocommon", "static"):
         fl = fl + ["-fno-pie"]
     for src in ("u1", "u2", "main"):
-        p = vt.run_limited(cc + fl + ["-c", "-o", src + ".o", src + ".c"], timeout=120, cwd=wd)
+        p = run_tool(cc + fl + ["-c", "-o", src + ".o", src + ".c"], timeout=120, cwd=wd)
         if p.returncode != 0:
             return "compile", "%s.c rc=%s %s" % (src, p.returncode, (p.stderr or "")[-600:])
     nopie = ["-no-pie"] if compiler == "gcc" and cfg in ("default", "nocommon", "static") else []
     if cfg == "shared":
-        p = vt.run_limited(cc + ["-shared", "-o", "libu2.so", "u2.o"], timeout=120, cwd=wd)
+        p = run_tool(cc + ["-shared", "-o", "libu2.so", "u2.o"], timeout=120, cwd=wd)
         if p.returncode != 0:
             return "link", "libu2.so rc=%s %s" % (p.returncode, (p.stderr or "")[-600:])
         cmd = cc + ["-o", "exe", "u1.o", "main.o", "libu2.so", "-lpthread"]
     else:
         cmd = cc + nopie + (["-static"] if cfg == "static" else []) + ["-o", "exe", "u1.o", "u2.o", "main.o", "-lpthread"]
-    p = vt.run_limited(cmd, timeout=180, cwd=wd)
+    p = run_tool(cmd, timeout=180, cwd=wd)
     if p.returncode != 0 or not os.path.exists(wd + "/exe"):
         return "link", "rc=%s %s" % (p.returncode, " | ".join(l for l in (p.stderr or "").splitlines() if "GNU-stack" not in l and "NOTE:" not in l)[-600:])
-    r = vt.run_limited(["./exe"], timeout=60, mem_gb=2, cwd=wd, env=dict(os.environ, LD_LIBRARY_PATH=wd))
+    r = run_tool(["./exe"], timeout=60, mem_gb=2, cwd=wd, env=dict(os.environ, LD_LIBRARY_PATH=wd))
     if r.returncode != 0:
         return "run", "rc=%s %s" % (r.returncode, (r.stdout or "")[-300:])
     return "ok", r.stdout.splitlines()
@@ -524,7 +532,7 @@ def run(ctx):
             ("graph3", dict(Mode=q("graph"), N=3, SelfLoops=not quick), None),
             # 4 functions: random walks inside the closed domain (every walk ends in a complete unit) for the
             # replay; the thorough tier also model-checks the whole N = 4 graph below
-            ("graph4", dict(Mode=q("graph"), N=4, SelfLoops=True), 60 if quick else 600)]
+            ("graph4", dict(Mode=q("graph"), N=4, SelfLoops=True), 6 if quick else 60)]
     for tag, consts, sim in plan:
         out = os.path.join(ctx.scratch, "units-%s.ndjson" % tag)
         if sim:
@@ -556,19 +564,20 @@ def run(ctx):
             ctx.report("tlc:Linkage:graph4:%s" % g4.violated, "Level I differs from Level A on a 4-function reference graph", p)
         ctx.phase("tlc graph4 exhaustive")
     # sensitivity controls: the pinned algorithm must be rejected in every mode
-    for tag, consts in (("obj", dict(Mode=q("obj"), N=0)), ("fn", dict(Mode=q("fn"), N=0)),
-                        ("graph2", dict(Mode=q("graph"), N=2))):
-        ctl = ctx.tlc("link", "Linkage", ctx.cfg("link", "Linkage_mc.cfg", Fixed=False, **consts), workers=2, count=False)
+    for tag, consts in (("obj", dict(Mode=q("obj"), N=0, Fixed=False)), ("fn", dict(Mode=q("fn"), N=0, Fixed=False)),
+                        ("graph2", dict(Mode=q("graph"), N=2, Fixed=False)),
+                        ("graph2-D23-alone", dict(Mode=q("graph"), N=2, ResetCurFn=False))):
+        ctl = ctx.tlc("link", "Linkage", ctx.cfg("link", "Linkage_mc.cfg", **consts), workers=2, count=False)
         if ctl.ok:
-            raise Infra("sensitivity control failed: TLC accepts the pinned linkage algorithm in mode " + tag)
+            raise Infra("sensitivity control failed: TLC accepts the pinned linkage algorithm (%s)" % tag)
     ctx.phase("controls")
     total = {}
     for tag, cases in allcases:
         stride = 1
         if quick:
-            stride = dict(obj=3, fn=1, graph2=1, graph3=8, graph4=1).get(tag, 1)
-        elif tag == "graph3":
-            stride = 2
+            stride = dict(obj=3, fn=1, graph2=1, graph3=8, graph4=2).get(tag, 1)
+        else:            # thorough: TLC still checks every state; the two largest families are replayed in part
+            stride = dict(obj=2, graph3=3).get(tag, 1)
         if os.environ.get("VERIF_C15_ORACLE") == "units":
             validate_oracle(ctx, tree, cases, tag)
         sel = vt.subsample(cases, ctx.seed, stride)
